@@ -50,15 +50,15 @@ theorem parse_printSchemaT_full (o : SdlPrintT.OptsT) (s : SchemaD) (hs : InPrin
   have hind := blank_of_wf o s hwf
   have hwf0 := hwf
   simp only [printTextWF, Bool.and_eq_true, List.all_eq_true] at hwf0
-  have hdesc : o.descriptions = true := hwf0.1.1.1.1.1.1.1.1
+  have hdesc : o.descriptions = true := hwf0.1.1.1.1.1.1.1.1.1
   apply parse_printSchemaT_core o s hs hwf
   · intro d hd
-    have hok := hwf0.1.1.1.1.1.2 d hd
+    have hok := hwf0.1.1.1.1.1.1.2 d hd
     simp only [directiveOKT, Bool.and_eq_true] at hok
     exact ⟨descPart_of_ok o hind hdesc d.desc 0 true (by simpa using hok.1.1.1.2),
       argsPart_of_ok s o hind hdesc d.args 0 (by simpa using hok.1.1.2)⟩
   · intro t ht
-    have hok := hwf0.1.1.1.1.1.1.2 t ht
+    have hok := hwf0.1.1.1.1.1.1.1.2 t ht
     have hok' := hok
     simp only [typeOKT, Bool.and_eq_true] at hok'
     exact ⟨descPart_of_ok o hind hdesc t.desc 0 true (by simpa using hok'.1.2), membersPart_of_ok s o hind hdesc t hok⟩
